@@ -25,23 +25,26 @@ def _fz(sub, q, t, qlen=400, tlen=2000):
             "thorough": {"runs": t, "max_len": tlen, "workers": 1, "unit_timeout": 120}}
 
 
-# 9 rapidcheck + 8 libFuzzer processes run side by side (one worker each): quick ~= 10-15 s of search per process,
-# thorough ~= 8-10 min per process on a 16-core box.
+# 9 rapidcheck + 8 libFuzzer processes run side by side (one worker each): quick ~= 12-15 CPU-s of search per process,
+# thorough ~= 4-8 CPU-min per process.
 PROP = {
     "subchecks": [
-        # rc case counts: ~12-15 CPU-s (quick) / ~8 CPU-min (thorough) per process, measured with _ENV on this box
-        _rc("base64", 70000, 2200000), _fz("base64", 130000, 5000000),
-        _rc("hex", 60000, 2000000), _fz("hex", 110000, 4000000),
-        _rc("scalable_int", 14000, 500000, tsize=100), _fz("scalable_int", 100000, 4000000),
-        _rc("serializer", 32000, 1200000, tsize=100), _fz("serializer", 150000, 6000000),
-        _rc("url", 70000, 1900000), _fz("url", 160000, 6000000),
-        _rc("crc_checksum", 60000, 2000000), _fz("crc_checksum", 12000, 500000),
-        _rc("md5", 26000, 950000, tsize=100), _fz("md5", 32000, 1300000),
-        _rc("aes", 3600, 130000, tsize=100), _fz("aes", 25000, 1000000),
+        # rc case counts: ~12-15 CPU-s (quick) per process measured with _ENV; thorough sized from one complete thorough run
+        # (17 processes, 4-8 CPU-min each on a quiet box; that run, on a box at load 40-100, used 246 CPU-min in total with
+        # about twice these counts)
+        _rc("base64", 70000, 1200000), _fz("base64", 130000, 4000000),
+        _rc("hex", 60000, 1000000), _fz("hex", 110000, 3000000),
+        _rc("scalable_int", 14000, 250000, tsize=100), _fz("scalable_int", 100000, 2000000),
+        _rc("serializer", 32000, 600000, tsize=100), _fz("serializer", 150000, 2000000),
+        _rc("url", 70000, 1000000), _fz("url", 160000, 2500000),
+        _rc("crc_checksum", 60000, 1200000), _fz("crc_checksum", 12000, 400000),
+        _rc("md5", 26000, 500000, tsize=100), _fz("md5", 32000, 1000000),
+        # aes: the code under test costs ~0.4 ms per block under ASan; long inputs (60 blocks) would run at ~500 exec/s
+        _rc("aes", 3600, 100000, tsize=100), _fz("aes", 25000, 600000, tlen=400),
         # messages of >= 2^29 bytes: ~10 s per case (the reference hashes 512 MiB once, the code under test twice, under ASan)
         {"target": "c19_codecs_rc", "sub": "md5_long", "replay_alarm": 900, "env": _ENV,
          "quick": {"cases": 2, "max_size": 10, "workers": 1},
-         "thorough": {"cases": 50, "max_size": 10, "workers": 1}},
+         "thorough": {"cases": 30, "max_size": 10, "workers": 1}},
     ],
     "assumptions": [
         "functions that TBOX_ASSERT a precondition are only called within it: base64 Encode gets a non-empty input and a non-zero capacity, MD5::update a non-null pointer, AES a 16-byte key/block",
